@@ -56,10 +56,13 @@ func (a c19CM) Delete(k string)                    { a.m.Delete(k) }
 func (a c19CM) Len() int                           { return a.m.Len() }
 func (a c19CM) Range(f func(k string, v int) bool) { a.m.Range(f) }
 
-type c19SS struct{ s gws.SessionStorage }
+// the storage is fetched through Conn.Session() at EVERY call, as an application does (the first uses may be concurrent)
+type c19SS struct{ conn *gws.Conn }
+
+func (a c19SS) st() gws.SessionStorage { return a.conn.Session() }
 
 func (a c19SS) Load(k string) (int, bool) {
-	v, ok := a.s.Load(k)
+	v, ok := a.st().Load(k)
 	if !ok {
 		return 0, false
 	}
@@ -76,15 +79,15 @@ func (a c19SS) Load(k string) (int, bool) {
 // the value 0 is stored as nil: `any(nil)` is a legal value of the session storage and must stay distinguishable from "absent"
 func (a c19SS) Store(k string, v int) {
 	if v == 0 {
-		a.s.Store(k, nil)
+		a.st().Store(k, nil)
 		return
 	}
-	a.s.Store(k, v)
+	a.st().Store(k, v)
 }
-func (a c19SS) Delete(k string) { a.s.Delete(k) }
-func (a c19SS) Len() int        { return a.s.Len() }
+func (a c19SS) Delete(k string) { a.st().Delete(k) }
+func (a c19SS) Len() int        { return a.st().Len() }
 func (a c19SS) Range(f func(k string, v int) bool) {
-	a.s.Range(func(k string, v any) bool { n, _ := v.(int); return f(k, n) })
+	a.st().Range(func(k string, v any) bool { n, _ := v.(int); return f(k, n) })
 }
 
 // kind 0: gws.NewConcurrentMap[string,int](req) ; kind 1: default session storage of a connection
@@ -97,7 +100,7 @@ func c19New(kind, req int) (c19Map, *gws.ConcurrentMap[string, int], error) {
 	if err != nil {
 		return nil, nil, fmt.Errorf("client handshake: %v", err)
 	}
-	return c19SS{conn.Session()}, nil, nil
+	return c19SS{conn}, nil, nil
 }
 
 // observed shard count and key -> shard index table (pointer identity of GetSharding against the
